@@ -523,8 +523,8 @@ struct Digit {
 
                     if (is_negative_exp) {
                         powerOfNegativeTen(number.Natural, exponent);
-                    } else {
-                        powerOfPositiveTen(number.Natural, exponent);
+                    } else if (!powerOfPositiveTen(number.Natural, exponent)) {
+                        return QNumberType::NotANumber;
                     }
                 }
                 ///////////////////////////////////////
@@ -626,7 +626,7 @@ struct Digit {
     }
     /////////////////////////////////////////
     template <typename Number_T>
-    static void powerOfPositiveTen(Number_T &number, SizeT32 exponent) noexcept {
+    static bool powerOfPositiveTen(Number_T &number, SizeT32 exponent) noexcept {
         using UNumber_T  = SystemIntType;
         using DigitConst = DigitUtils::DigitConst<sizeof(UNumber_T)>;
         //////////////////////////////////////////////////////////////
@@ -666,9 +666,16 @@ struct Digit {
         SizeT64 exp = DigitUtils::RealNumberInfo<double, 8U>::Bias; // double only
         exp += bit;
         exp += shifted;
+
+        if (exp > SizeT64{2046}) {
+            return false; // Larger than the largest finite double.
+        }
+
         exp <<= 52U;
         number &= 0xFFFFFFFFFFFFFULL;
         number |= exp;
+
+        return true;
     }
     /////////////////////////////////////////
     template <typename Char_T>
